@@ -253,7 +253,7 @@ def register_dataclass_type_with_jax_tree_util(data_class):
         constructable from keyword arguments corresponding to the members exposed
         in instance.__dict__.
     """
-    flatten = lambda d: jax.util.unzip2(sorted(d.__dict__.items()))[::-1]
+    flatten = lambda d: tuple(zip(*sorted(d.__dict__.items())))[::-1]
     unflatten = lambda keys, values: data_class(**dict(zip(keys, values)))
     try:
         jax.tree_util.register_pytree_node(
